@@ -45,7 +45,7 @@ def shards(tier, seed):
 
 def universe(seed, uid, attrs=False):
     rng = core.rng_for(seed, PROP, 'uni%d%s' % (uid, 'a' if attrs else ''))
-    o = gen.Opts(sub_names=True, max_types=4, nested_arrays=0.0, styles=('wrapped', 'wrapped', 'bare'), multi_return=False, methods=(1, 3), services=(1, 1),
+    o = gen.Opts(sub_names=True, bare_prims=True, max_types=4, nested_arrays=0.0, styles=('wrapped', 'wrapped', 'bare'), multi_return=False, methods=(1, 3), services=(1, 1),
                  attrs=attrs)
     return gen.rand_universe(rng, o, uid=uid)
 
